@@ -605,7 +605,33 @@ theorem taskReject_ir {s s' : State} {w : Nat} {id : TaskId} {rv : Option Nat} {
             rw [hid]
             exact hi0.inv.ls.free_of_retracting (w0 := w') (by show stOf s.tasks id = _; rw [hst, hs])
               (fun x v => rd_find_none hnone x v)
-      · cases h
+      · -- multi-node: refused by its root worker before the start was reported
+        rename_i ws hs
+        split at h
+        · cases h
+        · split at h
+          · simp only [Except.ok.injEq, Prod.mk.injEq] at h
+            rw [← h.1]; exact hi0
+          · split at h
+            · simp only [Except.ok.injEq, Prod.mk.injEq] at h
+              rw [← h.1]; exact hi0
+            · split at h
+              · simp only [Except.ok.injEq, Prod.mk.injEq] at h
+                rw [← h.1]; exact hi0
+              · split at h
+                · cases h
+                · rename_i s1 hr
+                  have hst0 : stOf s0.tasks id = some task.state := hst
+                  rw [hs] at hst0
+                  obtain ⟨a, b', c, d, e, f⟩ := resetMnChecked_ls _ _ _ _ hi0.inv.ls hr
+                  have hr1 := resetMnChecked_res _ _ _ _ hi0.res hr
+                  have hi1 : IR s1 := ⟨by unfold Inv; rw [c, e]; exact hi0.inv.workers a, by unfold Res; rw [c, e]; exact hr1⟩
+                  simp only [requeue] at h
+                  refine requeue_ir hi1 (by rw [c]; exact ht0) ?_ h
+                  rw [hid]
+                  unfold Free
+                  rw [d] at a b' ⊢
+                  exact free_after_reset hi0.inv.ls a hst0 b' f
       · cases h
       · cases h
       · cases h
